@@ -91,14 +91,25 @@ def r1(ctx: Ctx, run: FuncInfo, fl, loop) -> None:
     lc = proj.func('config_loader.load_config')
     lfl = get_flow(proj, lc)
     st = [s for s in lfl.cfg.stmts() if isinstance(s, ast.Assign) and src(s.targets[0]) == "config['data_sources']" and isinstance(s.value, ast.ListComp)]
-    ok = bool(st) and call_name(st[0].value.elt) == 'resolve_source_format' and src(st[0].value.generators[0].iter) == "config['data_sources']" and not st[0].value.generators[0].ifs
+    if not st:
+        ctx.unknown('C11.R1', lc, "config['data_sources'] is not rebuilt by a list comprehension")
+    it = st[0].value.generators[0].iter
+    it_ok = src(it) == "config['data_sources']" or 'key:config:data_sources' in lfl.atoms(it, st[0])
+    ok = call_name(st[0].value.elt) == 'resolve_source_format' and it_ok and not st[0].value.generators[0].ifs
     ctx.check(ok, 'C11.R1', lc, 'all-sources-resolved', 'every configured source is resolved, in order', 'not every data source passes resolve_source_format')
+
+    from ._config import config_stores
+
+    def stores_to(dst):
+        return config_stores(lfl, dst)
     for key, dst in (('merchants_file', '_merchants_file'), ('views_file', 'sections')):
-        stores = [s for s in lfl.cfg.stmts() if isinstance(s, ast.Assign) and src(s.targets[0]) == f"config['{dst}']" and not (isinstance(s.value, ast.Constant) and s.value.value is None)]
-        ok = any(f'key:config:{key}' in lfl.atoms(s.value, s) for s in stores)
+        stores = [(s_, v) for s_, v in stores_to(dst) if not (isinstance(v, ast.Constant) and v.value is None)]
+        if not stores:
+            ctx.unknown('C11.R1', lc, f"no store to config[{dst!r}] found in load_config")
+        ok = any(f'key:config:{key}' in lfl.atoms(v, s_) for s_, v in stores)
         ctx.check(ok, 'C11.R1', lc, f'config:{key}', f"{key} -> config['{dst}']", f'{key} does not determine config[{dst!r}]')
     # legacy CSV discovered when merchants_file absent
-    ok = any(isinstance(s, ast.Assign) and src(s.targets[0]) == "config['_merchants_file']" and src(s.value) == 'csv_file' for s in lfl.cfg.stmts())
+    ok = any("const:'merchant_categories.csv'" in lfl.atoms(v, s_) for s_, v in stores_to('_merchants_file'))
     ctx.check(ok, 'C11.R1', lc, 'config:legacy-csv', 'config/merchant_categories.csv discovered when merchants_file is not set', 'legacy CSV rules are not discovered')
 
     # ---- cmd_run
